@@ -13,6 +13,8 @@ git apply "$OUT/$PATCH" || { echo "patch does not apply"; exit 8; }
 mkdir -p .ergpath && rm -rf .ergpath/lib && cp -r crates/erg_compiler/lib .ergpath/lib
 export ERG_PATH=$WT/.ergpath CARGO_NET_OFFLINE=true
 cargo build --offline -q --workspace 2> "$OUT/build_after.log"; B1=$?
+# artefacts damaged by an earlier full disk / interrupted build: clean once and retry
+if [ $B1 != 0 ]; then cargo clean -q 2>/dev/null; cargo build --offline -q --workspace 2> "$OUT/build_after.log"; B1=$?; fi
 cargo nextest run --workspace --no-fail-fast --tool-config-file pb:/w/lib/nextest.toml --profile pb --test-threads 8 --offline > "$OUT/suite.log" 2>&1
 SUMMARY=$(grep -E "Summary" "$OUT/suite.log" | tail -1)
 FAILED=$(grep -E "^\s+FAIL" "$OUT/suite.log" | sed 's/.*) //' | sort -u | tr '\n' ' ')
@@ -29,6 +31,7 @@ timeout 1200 bash "$OUT/$DEMO/run.sh" "$WT" > "$OUT/demo_after.log" 2>&1; D1=$?
 git apply -R "$OUT/$PATCH"
 rm -rf .ergpath/lib && cp -r crates/erg_compiler/lib .ergpath/lib
 cargo build --offline -q --workspace 2> "$OUT/build_before.log"; B0=$?
+if [ $B0 != 0 ]; then cargo clean -q 2>/dev/null; cargo build --offline -q --workspace 2> "$OUT/build_before.log"; B0=$?; fi
 timeout 1200 bash "$OUT/$DEMO/run.sh" "$WT" > "$OUT/demo_before.log" 2>&1; D0=$?
 git apply "$OUT/$PATCH"
 python3 - <<PY
